@@ -268,6 +268,19 @@ func (c *fileCtx) isPkg(x ast.Expr, path string) bool {
 	return ok && pn.Imported().Path() == path
 }
 
+func (c *fileCtx) isTimerPtr(x ast.Expr) bool {
+	t := c.info.TypeOf(x)
+	if t == nil {
+		return false
+	}
+	p, ok := t.(*types.Pointer)
+	if !ok {
+		return false
+	}
+	n, ok := p.Elem().(*types.Named)
+	return ok && n.Obj().Pkg() != nil && n.Obj().Pkg().Path() == "time" && n.Obj().Name() == "Timer"
+}
+
 func recvName(fd *ast.FuncDecl) string {
 	if fd.Recv == nil || len(fd.Recv.List) == 0 {
 		return fd.Name.Name
@@ -431,6 +444,13 @@ func (c *fileCtx) rewrite(swapOS bool) []byte {
 				case "AfterFunc":
 					fail("%s: time.AfterFunc not supported by the instrumenter", c.fset.Position(n.Pos()))
 				}
+			}
+			if s, ok := n.Fun.(*ast.SelectorExpr); ok && (s.Sel.Name == "Stop" || s.Sel.Name == "Reset") && c.isTimerPtr(s.X) {
+				// see simrt's stash: a tick un-received after a same-instant tie
+				// must not survive Stop/Reset
+				c.usedRT = true
+				n.Fun = sel("simrt", "Timer"+s.Sel.Name)
+				n.Args = append([]ast.Expr{s.X}, n.Args...)
 			}
 			if s, ok := n.Fun.(*ast.SelectorExpr); ok && c.isPkg(s.X, "context") && s.Sel.Name == "AfterFunc" {
 				fail("%s: context.AfterFunc not supported by the instrumenter", c.fset.Position(n.Pos()))
